@@ -40,7 +40,7 @@ def stream_rows(ctx, ntables):
     from syndiffix.clustering.strategy import SingleClustering, NoClustering, DefaultClustering
     from dataclasses import replace
     R = ctx.rng
-    S = ctx.stream("O-rows", "len(Synthesizer(typed table, implicit ids, single/none/default(<=4 cols) clustering, random noise levels incl. off).sample()) "
+    S = ctx.stream("O-rows", "len(Synthesizer(typed table, implicit ids or an explicit column of distinct ids, single/none/default(<=4 cols) clustering, random noise levels incl. off).sample()) "
                    "vs the input row count; tables with nulls, extreme outliers, boundary values, 1..400 rows; non-trivial = N >= low_threshold")
     for _ in range(ntables):
         t = ES.gen_typed_table(R, max_rows=R.choice([60, 200, 400]))
@@ -54,14 +54,21 @@ def stream_rows(ctx, ntables):
                 if k in ("int", "float") and len(t["df"]) > 3:
                     t["df"].loc[R.randrange(len(t["df"])), c] = R.choice([10 ** 9, -10 ** 9, 0]) if k == "int" else R.choice([1e12, -1e12, 0.0])
         strat = R.choice([SingleClustering, NoClustering, DefaultClustering])
+        pids = None
+        if R.random() < 0.3:       # one row per entity, stated through an explicit id column (the generic counters); mostly tables of a few rows
+            import pandas as pd
+            if R.random() < 0.7 and t["n"] > 3:
+                n2 = min(t["n"], R.randint(3, 12)); t["df"] = t["df"].iloc[:n2].reset_index(drop=True); t["n"] = n2
+            ids = R.sample(range(1, 10 ** 6), t["n"])
+            pids = pd.DataFrame({"id": [f"e{i}" for i in ids] if R.random() < 0.5 else ids}); t["pid_mode"] = "explicit-unique"
         try:
-            out = Synthesizer(t["df"], anonymization_params=t["ap"], bucketization_params=t["bp"], clustering=strat()).sample()
+            out = Synthesizer(t["df"], pids=pids, anonymization_params=t["ap"], bucketization_params=t["bp"], clustering=strat()).sample()
         except RecursionError:
             continue
         except ValueError as e:
             if is_empty_cluster_error(e): continue      # C07's known finding F14
             raise
-        S.count((repr(t["df"].values.tolist()), repr(t["ap"]), strat.__name__), t["n"] >= t["ap"].low_count_params.low_threshold,
+        S.count((repr(t["df"].values.tolist()), repr(t["ap"]), strat.__name__, t["pid_mode"]), t["n"] >= t["ap"].low_count_params.low_threshold,
                 {"table": ES.typed_summary(t), "strategy": strat.__name__, "rows_out": len(out)}, tag=strat.__name__)
         oracle_rows(ctx, t, strat.__name__, len(out))
 
